@@ -509,6 +509,35 @@ def storm_stream(chk, binary):
             chk.cov["traces_validated_against_impl"] += 1
 
 
+def realtime_order_stream(chk):
+    """Deadlines are fixed by the SendDelayed call, not when the scheduler goroutine sees the request: real clock, one P, a
+    sender that does not yield between a 3 ms request and (5 ms later) a 0 ms request to the same queue (c10rt.go). Monitor
+    only; a round whose timing precondition failed is not counted, a round not released within 2.5 s of real time is recorded as inconclusive (lateness is decided on the virtual clock)."""
+    try:
+        binary = common.build_go("./cmd/fttaskx", tags="verif", out_name="fttaskx-rt")
+    except common.BuildError as e:
+        chk.infra_errors.append("fttaskx (real clock) does not build: " + str(e)[-800:])
+        return
+    case = "c10rt rounds=%d" % (3 if chk.tier == "quick" else 12)
+    try:
+        out = common.run_impl(binary, [case], timeout=120)[0]
+    except common.ImplCrash as e:
+        chk.monitor_fail("crash", case, str(e)[-300:], "real-clock order scenario did not finish: " + str(e)[-200:])
+        return
+    chk.count_case("deadline-fixed-at-send(real-clock,one-P)", case, True)
+    m = re.match(r"rounds=(\d+) misordered=(\d+) first=(\S+) late=(\d+)$", out)
+    chk.cov["realtime_order_rounds_counted"] = int(m.group(1)) if m else 0
+    if not m:
+        chk.monitor_fail("crash", case, out[:300], "real-clock order scenario gave no result")
+    elif int(m.group(2)) > 0:
+        chk.monitor_fail("order", case, out, "%s of %s rounds: A (delay 3 ms) was sent, the sender stayed busy 5 ms without yielding, then B (delay 0) was sent to "
+                         "the same queue: deadline(A) < deadline(B), released in order %s" % (m.group(2), m.group(1), m.group(3)))
+    elif int(m.group(4)) > 0:
+        # real time on a loaded machine: lateness is decided on the virtual clock by the other streams, not here
+        chk.cov["realtime_order_rounds_not_released_within_2.5s(inconclusive)"] = int(m.group(4))
+    chk.sample(dict(stream="deadline-fixed-at-send(real-clock,one-P)", case=case, impl=out), limit=9)
+
+
 def late_stream(chk, binary):
     """Monitor-only, virtual clock with ONE P (deterministic): a task handed over at a tick instant BEFORE the scheduler
     goroutine has handled that tick (witness: a task due at that very tick has not been placed yet) must be released by
@@ -582,6 +611,7 @@ def run(chk):
         try:
             storm_stream(chk, binary)
             late_stream(chk, binary)
+            realtime_order_stream(chk)
         except Exception as ex:
             chk.infra_errors.append("storm stream failed: %r" % (ex,))
         try:
